@@ -1,0 +1,39 @@
+//go:build verif
+
+package avro
+
+// Simulation hooks, only present with the verif build tag. A deterministic
+// simulation harness sets these to own the resource-bank pool and to get a
+// scheduling point before the package's locks are taken. With nil hooks the
+// behaviour is the shipped one.
+const verifOn = true
+
+var SimHooks struct {
+	// Yield is called before a lock is taken (never while one is held).
+	Yield func(site string)
+	// BankGet may return a bank to use instead of asking the sync.Pool.
+	BankGet func() *ResourceBank
+	// BankPut may take ownership of a closed bank (return true) instead of
+	// it being put in the sync.Pool.
+	BankPut func(rb *ResourceBank) bool
+}
+
+func simYield(site string) {
+	if f := SimHooks.Yield; f != nil {
+		f(site)
+	}
+}
+
+func simBankGet() *ResourceBank {
+	if f := SimHooks.BankGet; f != nil {
+		return f()
+	}
+	return nil
+}
+
+func simBankPut(rb *ResourceBank) bool {
+	if f := SimHooks.BankPut; f != nil {
+		return f(rb)
+	}
+	return false
+}
